@@ -5,7 +5,7 @@ import itertools
 
 from .. import dag, kern
 from ..arr import Arr
-from ..pe import PE, PERaise
+from ..pe import PE, PERaise, decide_on_values
 from ..src import load
 
 LEVEL = "proof"
@@ -107,16 +107,21 @@ def run(chk):
         V = M([[dag.sym(f"v{i}{j}") for j in range(dim)] for i in range(dim)])
 
         def assume(text, env):
-            return True if "!= 0" in text else None
+            # the matrix is generic: nothing vanishes, and a discriminant is not within a tolerance of zero
+            if "!= 0" in text:
+                return True
+            return decide_on_values(box[0], text, env)
 
+        box = [None]
         pe = PE(src, assume=assume)
+        box[0] = pe
         pe.ext["builtins.complex"] = kern._complex
         Vinv = _inv(pe, V)
         Mx = mm(mm(V, M([[w[i] if i == j else dag.const(0) for j in range(dim)] for i in range(dim)])), Vinv)
         pe.ext["numpy.linalg.eig"] = lambda p, a, k: (Arr.from_nested(list(w)), V)
         try:
             expm, lams, es = pe.call(fg.qname, [Mx])
-        except (PERaise, dag.Undecidable) as e:
+        except PERaise as e:
             chk.fail("general-eigen-decomposition", fg.qname, f"dimension {dim}: {type(e).__name__} {e}", where=fg.where, instance=str(dim))
             continue
         lam_list = [lams[i] for i in range(dim)] if isinstance(lams, Arr) else list(lams)
